@@ -42,6 +42,7 @@ struct Corpus {
     id_field: String,
     parser_or: QueryParser,
     parser_and: QueryParser,
+    parser_nodef: QueryParser, // no default field at all
 }
 
 fn totality_parser() -> QueryParser {
@@ -137,7 +138,8 @@ fn build_corpus(c: &Value) -> Corpus {
     let parser_or = QueryParser::for_index(&index, defaults.clone());
     let mut parser_and = QueryParser::for_index(&index, defaults);
     parser_and.set_conjunction_by_default();
-    Corpus { index, id_field: "id".to_string(), parser_or, parser_and }
+    let parser_nodef = QueryParser::for_index(&index, vec![]);
+    Corpus { index, id_field: "id".to_string(), parser_or, parser_and, parser_nodef }
 }
 
 fn run_query(c: &Corpus, q: &dyn Query) -> Result<Vec<u64>, String> {
@@ -214,7 +216,7 @@ fn meaning_obs(ctx: &Ctx, case: &Value, stage: &AtomicU64) -> Value {
         let text = text_of(t);
         let mut o = serde_json::Map::new();
         o.insert("text".into(), t.clone());
-        for (mode, parser) in [("or", &c.parser_or), ("and", &c.parser_and)] {
+        for (mode, parser) in [("or", &c.parser_or), ("and", &c.parser_and), ("nodef", &c.parser_nodef)] {
             stage.store(3, Ordering::SeqCst);
             // parsing and searching are observed separately: a panic of the parser is C16's business,
             // a panic while searching is reported as such
